@@ -589,7 +589,7 @@ Proof. intro H. destruct s; [exact H | now apply first_sig_is_child]. Qed.
 
 (* the switches that every theorem needs on; k_onesig / k_uniq / k_issuer are handled by guards *)
 Definition sound_knobs (K : knobs) : Prop :=
-  k_uri K = true /\ k_nodeid K = true /\ k_iter K = true /\ k_exact K = true.
+  k_uri K = true /\ k_nodeid K = true /\ k_iter K = true /\ k_exact K = true /\ k_isseq K = true.
 
 (* why the element that is signature-checked is the element the engine starts from:
    - the code makes the whole test (one signature, unique in the text) - enough for EVERY engine; or
@@ -623,7 +623,7 @@ Section Key.
       /\ dig_ok alg dv (remove_at item [j]) = true
       /\ sig_ok k sv si = true.
   Proof.
-    intros (Ku & Kn & Ki & Ke) Hone Hbare Hsub Hclear Htag Hschema H.
+    intros (Ku & Kn & Ki & Ke & _) Hone Hbare Hsub Hclear Htag Hschema H.
     assert (Hm : id_match nn (tag item) = true) by (unfold id_match; now rewrite Htag, String.eqb_refl).
     unfold check_signature in H.
     destruct schema; [|discriminate]. simpl in H.
@@ -1326,7 +1326,8 @@ Section Main.
                       In (issuer_text doc) (covered_issuers c cv)).
     { intros cv a Hta Has Hne [[Hic Hk]|Heq].
       - unfold issuer_check in Hic. rewrite Hk in Hic. cbn [negb orb] in Hic.
-        apply andb_true_iff in Hic as [_ Hic]. rewrite Hne in Hic. cbn [orb] in Hic. apply String.eqb_eq in Hic.
+        apply andb_true_iff in Hic as [_ Hic]. rewrite Hne in Hic. cbn [orb] in Hic.
+        rewrite (proj2 (proj2 (proj2 (proj2 HK)))) in Hic. apply String.eqb_eq in Hic.
         rewrite Hic. apply asserted_issuer; try assumption. now rewrite <- Hic.
       - rewrite <- Heq. apply asserted_issuer; try assumption. now rewrite Heq. }
     (* crypto facts for the Response digest *)
@@ -1556,7 +1557,8 @@ Section Single.
                    is_empty (issuer_text doc) = false -> issuer_text a = issuer_text doc).
     { intros Hns a Hone Hic Hne. destruct Hig as [Hk|[Hs|(a' & Ha' & Hia)]].
       - unfold issuer_check in Hic. rewrite Hk in Hic. cbn [negb orb] in Hic.
-        apply andb_true_iff in Hic as [_ Hic]. rewrite Hne in Hic. cbn [orb] in Hic. apply String.eqb_eq in Hic. now symmetry.
+        apply andb_true_iff in Hic as [_ Hic]. rewrite Hne in Hic. cbn [orb] in Hic.
+        rewrite (proj2 (proj2 (proj2 (proj2 HK)))) in Hic. apply String.eqb_eq in Hic. now symmetry.
       - contradiction.
       - rewrite Hone in Ha'. destruct Ha' as [<-|[]]. assumption. }
     destruct (find_encrypt_data doc) eqn:Efe.
@@ -1896,9 +1898,9 @@ Proof. vm_compute. reflexivity. Qed.
 
 (* necessity of three conjuncts of the defence: with the conjunct switched off (everything else as coded)
    a wrapping document is accepted with the attacker's identity; the code as it is rejects it *)
-Definition no_uri : knobs := {| k_uri := false; k_uniq := true; k_nodeid := true; k_onesig := true; k_issuer := true; k_iter := true; k_exact := true; k_lax := true; k_one := true |}.
-Definition no_uniq : knobs := {| k_uri := true; k_uniq := false; k_nodeid := true; k_onesig := true; k_issuer := true; k_iter := true; k_exact := true; k_lax := true; k_one := true |}.
-Definition no_nodeid : knobs := {| k_uri := true; k_uniq := true; k_nodeid := false; k_onesig := true; k_issuer := true; k_iter := true; k_exact := true; k_lax := true; k_one := true |}.
+Definition no_uri : knobs := {| k_uri := false; k_uniq := true; k_nodeid := true; k_onesig := true; k_issuer := true; k_iter := true; k_exact := true; k_lax := true; k_one := true; k_isseq := true |}.
+Definition no_uniq : knobs := {| k_uri := true; k_uniq := false; k_nodeid := true; k_onesig := true; k_issuer := true; k_iter := true; k_exact := true; k_lax := true; k_one := true; k_isseq := true |}.
+Definition no_nodeid : knobs := {| k_uri := true; k_uniq := true; k_nodeid := false; k_onesig := true; k_issuer := true; k_iter := true; k_exact := true; k_lax := true; k_one := true; k_isseq := true |}.
 
 Definition permits_wrapping (K : knobs) (d : tree) : Prop :=
   Ex.names (Ex.run K Ex.cfgA d) = Some (Some ("admin", None))
@@ -1928,14 +1930,14 @@ Proof. split; vm_compute; reflexivity. Qed.
 Lemma necessity_nodeid : permits_wrapping no_nodeid Ex.doc_nodeid.
 Proof. repeat split; vm_compute; reflexivity. Qed.
 
-Definition no_onesig : knobs := {| k_uri := true; k_uniq := true; k_nodeid := true; k_onesig := false; k_issuer := true; k_iter := true; k_exact := true; k_lax := true; k_one := true |}.
+Definition no_onesig : knobs := {| k_uri := true; k_uniq := true; k_nodeid := true; k_onesig := false; k_issuer := true; k_iter := true; k_exact := true; k_lax := true; k_one := true; k_isseq := true |}.
 Lemma necessity_onesig : permits_wrapping no_onesig Ex.doc_f1.
 Proof. repeat split; vm_compute; reflexivity. Qed.
 
 (* the one-signature test must look at ALL descendants in document order: a genuine, still signed assertion
    nested (in the Advice) AHEAD of the wrapper's own self-referencing ds:Signature child is what xmlsec1 verifies *)
 Definition no_iter : knobs :=
-  {| k_uri := true; k_uniq := true; k_nodeid := true; k_onesig := true; k_issuer := true; k_iter := false; k_exact := true; k_lax := true; k_one := true |}.
+  {| k_uri := true; k_uniq := true; k_nodeid := true; k_onesig := true; k_issuer := true; k_iter := false; k_exact := true; k_lax := true; k_one := true; k_isseq := true |}.
 Definition doc_nested_first : tree :=
   Ex.response Ex.IDP
     [Node ASSERTION [("ID", "E")] ""
@@ -1948,7 +1950,7 @@ Proof. repeat split; vm_compute; reflexivity. Qed.
 (* the Reference URI must equal "#"+ID exactly: with a case-insensitive comparison the genuine signature
    (URI #A) moved onto an attacker assertion whose ID is "a" passes, and xmlsec1 resolves #A to the genuine A *)
 Definition no_exact : knobs :=
-  {| k_uri := true; k_uniq := true; k_nodeid := true; k_onesig := true; k_issuer := true; k_iter := true; k_exact := false; k_lax := true; k_one := true |}.
+  {| k_uri := true; k_uniq := true; k_nodeid := true; k_onesig := true; k_issuer := true; k_iter := true; k_exact := false; k_lax := true; k_one := true; k_isseq := true |}.
 Definition doc_case_id : tree :=
   Ex.response Ex.IDP [Ex.assertion "a" Ex.IDP [Ex.sigA] "admin" "admin@evil.example" [Ex.el ADVICE [Ex.genuineA]]].
 Lemma necessity_exact_id : permits_wrapping no_exact doc_case_id.
@@ -1977,6 +1979,77 @@ Proof.
     + intros a [<-|[]] _. vm_compute. reflexivity.
     + intros dd H. discriminate.
   - intro S. apply spec_issuer_b_iff in S. congruence.
+Qed.
+
+(* (round 6) the issuer test must compare the two names for EQUALITY.  The federation of ExN has two members whose
+   entityIDs NEST (the staff IdP's is the leading part of the guest IdP's); the guest IdP genuinely signs an assertion
+   about its self-registered subject "admin", the envelope - outside the signature - is rewritten to name the staff IdP.
+   With a substring test (`_resp_issuer not in _ass_issuer`) the message is accepted and REPORTED as the staff IdP's
+   although the only covered element names the guest IdP; the code as it is refuses it, and accepts the unedited
+   message. *)
+Module ExN.
+  Definition GUEST := "https://idp.example.org/idp.xml/guest".
+  Definition genuineG : tree := Ex.assertion "G" GUEST [] "admin" "admin@example.org" [].
+  Definition G_signed : tree := Ex.assertion "G" GUEST [Ex.sig "#G" "dG" "sG"] "admin" "admin@example.org" [].
+  Definition dig_g (a dv : string) (t : tree) : bool := String.eqb dv "dG" && tree_eqb t genuineG.
+  Definition sig_g (k : nat) (sv : string) (si : tree) : bool :=
+    Nat.eqb k 7 && String.eqb sv "sG" && tree_eqb si (Ex.signed_info "#G" "dG").
+  Definition cfgG : cfg := {| want_resp := false; want_assert := true; want_either := false;
+                              md := [(GUEST, [7]); (Ex.IDP, [1]); (Ex.OTHER, [4])]; amap := [("uri|mail", "mail")] |}.
+  Definition doc_nested : tree := Ex.response Ex.IDP [G_signed].
+  Definition doc_unedited : tree := Ex.response GUEST [G_signed].
+  (* other spellings near the signed name: a fragment, the name in capitals, a superstring *)
+  Definition doc_fragment : tree := Ex.response "idp.example.org" [G_signed].
+  Definition doc_upper : tree := Ex.response "HTTPS://IDP.EXAMPLE.ORG/IDP.XML/GUEST" [G_signed].
+  Definition doc_longer : tree := Ex.response (GUEST ++ "/x") [G_signed].
+  Definition run (K : knobs) (d : tree) := accept dig_g sig_g xmlsec1 K cfgG Ex.all_ok d None.
+End ExN.
+
+Definition no_isseq : knobs :=
+  {| k_uri := true; k_uniq := true; k_nodeid := true; k_onesig := true; k_issuer := true; k_iter := true; k_exact := true; k_lax := true; k_one := true; k_isseq := false |}.
+
+Lemma necessity_exact_issuer :
+  (exists rep ds, ExN.run no_isseq ExN.doc_nested = Some (rep, ds)
+                  /\ sig_required ExN.cfgG
+                  /\ r_issuer rep = Ex.IDP /\ r_name_id rep = Some ("admin", None)
+                  /\ spec_but_issuer ExN.cfgG (cov_of ExN.doc_nested None ds) rep
+                  /\ ~ spec_issuer ExN.cfgG (cov_of ExN.doc_nested None ds) rep)
+  /\ (exists rep ds, ExN.run no_isseq ExN.doc_fragment = Some (rep, ds)
+                     /\ ~ spec_issuer ExN.cfgG (cov_of ExN.doc_fragment None ds) rep)
+  /\ ExN.run as_coded ExN.doc_nested = None /\ ExN.run as_coded ExN.doc_fragment = None
+  /\ ExN.run as_coded ExN.doc_upper = None /\ ExN.run as_coded ExN.doc_longer = None
+  /\ (exists rep ds, ExN.run as_coded ExN.doc_unedited = Some (rep, ds) /\ r_issuer rep = ExN.GUEST
+                     /\ spec ExN.cfgG (cov_of ExN.doc_unedited None ds) rep).
+Proof.
+  split; [|split; [|repeat split; try (vm_compute; reflexivity)]].
+  - destruct (ExN.run no_isseq ExN.doc_nested) as [[rep ds]|] eqn:E; [|vm_compute in E; discriminate].
+    exists rep, ds. split; [reflexivity|].
+    assert (H1 : match ExN.run no_isseq ExN.doc_nested with
+                 | Some (rep, ds) => (String.eqb (r_issuer rep) Ex.IDP
+                                      && opt_eqb (fun x y => String.eqb (fst x) (fst y) && opt_eqb String.eqb (snd x) (snd y))
+                                                 (r_name_id rep) (Some ("admin", None))
+                                      && spec_but_issuer_b ExN.cfgG (cov_of ExN.doc_nested None ds) rep
+                                      && negb (spec_issuer_b ExN.cfgG (cov_of ExN.doc_nested None ds) rep))
+                 | None => false end = true) by (vm_compute; reflexivity).
+    rewrite E in H1. rewrite !andb_true_iff in H1. destruct H1 as (((H1 & H0) & H2) & H3).
+    apply String.eqb_eq in H1. apply spec_but_issuer_b_iff in H2. apply negb_true_iff in H3.
+    split; [right; left; reflexivity|]. split; [assumption|]. split.
+    + destruct (r_name_id rep) as [[n f]|]; [|discriminate]. cbn in H0. apply andb_true_iff in H0 as [Hn Hf].
+      apply String.eqb_eq in Hn. destruct f; [discriminate|]. now subst.
+    + split; [assumption|]. intro S. apply spec_issuer_b_iff in S. congruence.
+  - destruct (ExN.run no_isseq ExN.doc_fragment) as [[rep ds]|] eqn:E; [|vm_compute in E; discriminate].
+    exists rep, ds. split; [reflexivity|].
+    assert (H1 : match ExN.run no_isseq ExN.doc_fragment with
+                 | Some (rep, ds) => negb (spec_issuer_b ExN.cfgG (cov_of ExN.doc_fragment None ds) rep)
+                 | None => false end = true) by (vm_compute; reflexivity).
+    rewrite E in H1. apply negb_true_iff in H1. intro S. apply spec_issuer_b_iff in S. congruence.
+  - destruct (ExN.run as_coded ExN.doc_unedited) as [[rep ds]|] eqn:E; [|vm_compute in E; discriminate].
+    exists rep, ds. split; [reflexivity|].
+    assert (H1 : match ExN.run as_coded ExN.doc_unedited with
+                 | Some (rep, ds) => String.eqb (r_issuer rep) ExN.GUEST && spec_b ExN.cfgG (cov_of ExN.doc_unedited None ds) rep
+                 | None => false end = true) by (vm_compute; reflexivity).
+    rewrite E in H1. apply andb_true_iff in H1 as [H1 H2]. apply String.eqb_eq in H1. split; [assumption|].
+    now apply spec_b_iff.
 Qed.
 
 Lemma f2_outside_guard : ~ issuer_guard Ex.doc_f2 None.
